@@ -83,4 +83,8 @@ theorem source_msgGetSender : GeneratedSrc.msgGetSender = ExpectedSrc.msgGetSend
 theorem source_exSendMessageFn : GeneratedSrc.exSendMessageFn = ExpectedSrc.exSendMessageFn := by rfl
 theorem source_exAckMessageFn : GeneratedSrc.exAckMessageFn = ExpectedSrc.exAckMessageFn := by rfl
 
+theorem source_kpStop : GeneratedSrc.kpStop = ExpectedSrc.kpStop := by rfl
+theorem source_kpShutdown : GeneratedSrc.kpShutdown = ExpectedSrc.kpShutdown := by rfl
+theorem source_msShutdown : GeneratedSrc.msShutdown = ExpectedSrc.msShutdown := by rfl
+
 end Firebolt.C17
